@@ -203,6 +203,7 @@ var c17ULabels = []string{
 	"caf\u00e9",
 	"\u0439\u043e\u0433", // short i decomposes under NFD
 	"\u03b1\u0390\u03b1", // U+0390 has no precomposed capital: its upper-case spelling is U+03AA U+0301
+	"i\u0307stanbul",       // dotted i: its upper-case spelling I U+0307 is U+0130 in NFC
 	"example", "mail", "sub-1", "a", "org", "com", "x1",
 }
 
@@ -238,7 +239,9 @@ func c17Upper(r rune) rune {
 // rune-wise form 2 for letters without a precomposed capital); only when lower-casing leads back to the label
 func c17UpperOfDecomposed(u string) string {
 	up := norm.NFC.String(strings.ToUpper(norm.NFD.String(u)))
-	if norm.NFC.String(strings.ToLower(up)) != u {
+	// (lower-casing the decomposed capital spelling leads back: I U+0307 -> i U+0307, although
+	// strings.ToLower of the composed U+0130 alone is a plain i)
+	if norm.NFC.String(strings.ToLower(norm.NFD.String(up))) != u {
 		return u
 	}
 	return up
